@@ -159,10 +159,12 @@ def run(ctx):
 	for k in range(n):
 		m = trxd.rand_msg(r)
 		legacy = r.random() < 0.5
-		ok = roundtrip(ctx, m, legacy, "random", as_bytes = (k & 1) == 0)
+		ok = True
+		with common.case_watchdog(ctx, "random", {"msg": trxd.brief(m), "legacy": legacy}):
+			ok = roundtrip(ctx, m, legacy, "random", as_bytes = (k & 1) == 0)
 		if k < 3 * ctx.sample_cap:
 			ctx.sample("roundtrip:%s/v%d" % (m["dir"], m["ver"]), {"msg": trxd.brief(m), "legacy": legacy})
-		if not ok and ctx.too_many():
+		if (not ok or ctx.counters.get("cases_that_do_not_terminate")) and ctx.too_many():
 			break
 	online(ctx)
 	ctx.require("roundtrips", 1000)
